@@ -137,3 +137,74 @@ def source_hashes(files):
         except OSError:
             out[f] = "missing"
     return out
+
+
+# ---------------------------------------------------------------------------------------------------------------------
+# Package state between paths.  The explorer re-executes the harness body once per path in ONE interpreter, which is only
+# sound when every execution starts from the same package state.  A change that introduces module-level or class-level
+# state (a memo dictionary, a rewritten default) would otherwise leak values -- including symbolic terms of another path --
+# from one path into the next.  `snapshot_state()` records every plain container / scalar held in module globals and class
+# attributes of the loaded OpenPinch modules; `restore_state()` (a path hook) puts them back IN PLACE before each path.
+_STATE = []
+_PLAIN = (int, float, str, bool, type(None), bytes, tuple, frozenset)
+
+
+def _owners():
+    for mname, mod in list(sys.modules.items()):
+        if not (mname == "OpenPinch" or mname.startswith("OpenPinch.")) or mod is None:
+            continue
+        yield mod
+        for val in list(vars(mod).values()):
+            if builtins.isinstance(val, type) and getattr(val, "__module__", None) == mname:
+                yield val
+
+
+def snapshot_state():
+    import copy
+    del _STATE[:]
+    for owner in _owners():
+        for name, val in list(vars(owner).items()):
+            if name.startswith("__") or name in ("np", "math", "isinstance", "float", "round"):
+                continue
+            if builtins.isinstance(val, (dict, list, set)):
+                try:
+                    _STATE.append([owner, name, val, copy.copy(val), copy.deepcopy(val)])
+                except Exception:
+                    pass
+            elif builtins.isinstance(val, _PLAIN):
+                _STATE.append([owner, name, None, None, val])
+
+
+def _same_shallow(obj, ref):
+    if len(obj) != len(ref):
+        return False
+    if builtins.isinstance(obj, dict):
+        return builtins.all(k in ref and obj[k] is ref[k] for k in obj)
+    if builtins.isinstance(obj, list):
+        return builtins.all(a is b for a, b in zip(obj, ref))
+    return builtins.all(a in ref for a in obj)
+
+
+def restore_state(*_a):
+    """Top-level contents are compared by identity with a shallow copy taken at snapshot time; a container that differs is refilled in
+    place from the deep copy (mutations nested deeper than one level are not detected)."""
+    import copy
+    for ent in _STATE:
+        owner, name, obj, shallow, snap = ent
+        try:
+            if obj is None:
+                if vars(owner).get(name, _MISSING) is not snap:
+                    setattr(owner, name, snap)
+                continue
+            if not _same_shallow(obj, shallow):
+                fresh = copy.deepcopy(snap)
+                if builtins.isinstance(obj, list):
+                    obj[:] = fresh
+                else:
+                    obj.clear()
+                    obj.update(fresh)
+                ent[3] = copy.copy(obj)
+            if vars(owner).get(name, _MISSING) is not obj:
+                setattr(owner, name, obj)
+        except Exception:
+            pass
